@@ -56,6 +56,14 @@ def c01(D, h):
     for g, c in seen.items():
         if c != 1:
             bad.append('gene %s occurs %d times in the families' % (g, c))
+    # ... and the analysis agrees when asked the other way round: the family of a member gene is the family that lists it
+    for tid, top in tops.items():
+        for x in top.get_all_descendant_genes()[:30]:
+            try:
+                if h.get_hog_by_gene(x) is not top:
+                    bad.append('get_hog_by_gene(%s) is not the family %s that lists the gene' % (x.unique_id, tid))
+            except Exception as e:      # noqa
+                bad.append('get_hog_by_gene(%s) raised %s' % (x.unique_id, type(e).__name__))
     referenced = set(refs_of(D.groups))
     for g in h.get_list_extant_genes():
         if (g.unique_id not in referenced) != g.is_singleton():
